@@ -164,6 +164,8 @@ structure Cfg where
   rfx : Range.RFix := {}
   rfnReverse : Bool := true      -- F80 repaired: refines of inner uses are applied first (scan from the end)
   augRmSwap : Bool := true       -- `ly_set_rm(&ctx->augs, …)` moves the LAST pending augment into the hole (F81)
+  fixF390 : Bool := false        -- fixes/F390.diff: top-level augment bodies are compiled with an empty groupings stack
+  fixF392 : Bool := false        -- fixes/F392.diff: removal of a disabled mandatory node re-evaluates the parents' mandatory flag
   deriving Inhabited
 
 def builtins : List String := ["int8", "int16", "int32", "uint8", "uint16", "uint32", "string", "boolean"]
@@ -529,6 +531,71 @@ def mkLeafType (env : Env) (p : Props) : Except Err (CType × Option String × L
   let units := match p.units with | some u => some u | none => tr.units
   .ok (tr.typ, units, match tr.dflt with | some d => [d] | none => [])
 
+/-- what `lys_compile_node_` settles before the node-type specific part: refines and deviations applied to the parsed
+statements, if-feature, config, status -/
+structure Head where
+  p : Props            -- the parsed node after refines and deviations
+  d0 : CData           -- generic part of the compiled node
+  cxk : Cx             -- context of the children
+  dis : Bool           -- LYS_COMPILE_DISABLED while compiling it
+  deriving Inhabited
+
+def nodeHead (env : Env) (st : St) (cx : Cx) (inh : Nat) (p0 : Props) : Except Err (St × Head) :=
+  -- lys_compile_node_: deviations and refines first
+  let path := cx.ppath ++ [(cx.cur, p0.name)]
+  match takeRefines env.cfg path cx.cur st.rfns p0 with
+  | .error e => .error e
+  | .ok (rfns, p1) =>
+  match takeDevs path st.devs p1 with
+  | .error e => .error e
+  | .ok (devs, p, notSupp) =>
+    let st := { st with rfns := rfns, devs := devs }
+    let en := enabled env.sch.features p.iffs || cx.grp
+    let notSupp := notSupp && !cx.grp
+    let selfDis := (notSupp || !en) && !cx.disabled
+    let dis := cx.disabled || notSupp || !en
+    match compileConfig cx.parent (if p.kind == .case then none else p.config), compileStatus p.status inh (match cx.parent with | some pi => pi.status | none => 0) with
+    | .error e, _ => .error e
+    | _, .error e => .error e
+    | .ok cfgv, .ok stv =>
+      let me : PInfo := { mod := cx.cur, name := p.name, kind := p.kind, config := cfgv, status := stv }
+      let cxk : Cx := { cx with ppath := path, parent := some me, disabled := dis }
+      let d0 : CData := { mod := cx.cur, name := p.name, kind := p.kind, config := cfgv, status := stv, mand := false,
+                          presence := false, whens := p.whens, disabled := selfDis, dflts := [], min := 0, max := 0, typ := none, units := none }
+      .ok (st, { p := p, d0 := d0, cxk := cxk, dis := dis })
+
+/-- `lys_compile_node_leaf` / `_leaflist` (+ the default part of `lys_compile_unres_depset`) -/
+def leafBody (env : Env) (cx : Cx) (h : Head) : Except Err CNode :=
+  let p := h.p
+  match mkLeafType env p with
+  | .error e => .error e
+  | .ok (t, units, tdf) =>
+    if p.kind == .leaf then
+      let mand := p.mand == some true
+      if !p.dflts.isEmpty && mand then .error .fail else
+      -- lys_compile_unres_leaf_dlft: the type's default is ignored for a mandatory leaf; values are checked unless disabled
+      let dfl := if !p.dflts.isEmpty then p.dflts else if mand then [] else tdf
+      if !h.dis && !cx.grp && !(dfl.all (dfltValid t)) then .error .fail else
+      .ok (.mk { h.d0 with mand := mand, dflts := dfl, typ := some t, units := units } [])
+    else
+      let mand := p.min > 0
+      if !p.dflts.isEmpty && mand then .error .fail else
+      if p.max != 0 && p.min > p.max then .error .fail else
+      let dfl := if !p.dflts.isEmpty then p.dflts else if mand then [] else tdf
+      if !h.dis && !cx.grp && !(dfl.all (dfltValid t)) then .error .fail else
+      if !h.dis && !cx.grp && h.d0.config && !p.dflts.isEmpty && !distinctStr p.dflts then .error .fail else
+      .ok (.mk { h.d0 with mand := mand, dflts := dfl, typ := some t, units := units, min := p.min, max := p.max } [])
+
+/-- the node-type specific flags of an inner node once its children (and augments) are there:
+`lys_compile_mandatory_parents` (a non-presence container is flagged by every mandatory child), list min/max, choice mandatory -/
+def finishInner (h : Head) (acc : List CNode) : Except Err CNode :=
+  let p := h.p
+  match p.kind with
+  | .container => .ok (.mk { h.d0 with presence := p.presence, mand := !p.presence && acc.any (·.d.mand) } acc)
+  | .list => if p.max != 0 && p.min > p.max then .error .fail else .ok (.mk { h.d0 with mand := p.min > 0, min := p.min, max := p.max } acc)
+  | .choice => .ok (.mk { h.d0 with mand := p.mand == some true } acc)
+  | _ => .ok (.mk h.d0 acc)
+
 mutual
 /-- `lys_compile_node` for one parsed child: the new compiled nodes (one, or those of a `uses`) -/
 def compileNode (env : Env) : Nat → St → Cx → Nat → PNode → Except Err (St × List CNode)
@@ -560,90 +627,34 @@ def compileNode (env : Env) : Nat → St → Cx → Nat → PNode → Except Err
           if st.uaugs.any (·.usesId == uid0) || st.rfns.any (·.usesId == uid0) then .error .fail
           else .ok (st, cs)
   | fuel + 1, st, cx, inh, .node p0 kids =>
-    -- lys_compile_node_: deviations and refines first
-    let path := cx.ppath ++ [(cx.cur, p0.name)]
-    match takeRefines env.cfg path cx.cur st.rfns p0 with
+    match nodeHead env st cx inh p0 with
     | .error e => .error e
-    | .ok (rfns, p1) =>
-    match takeDevs path st.devs p1 with
-    | .error e => .error e
-    | .ok (devs, p, notSupp) =>
-      let st := { st with rfns := rfns, devs := devs }
-      let en := enabled env.sch.features p.iffs || cx.grp
-      let notSupp := notSupp && !cx.grp
-      let selfDis := (notSupp || !en) && !cx.disabled
-      let dis := cx.disabled || notSupp || !en
-      match compileConfig cx.parent (if p.kind == .case then none else p.config), compileStatus p.status inh (match cx.parent with | some pi => pi.status | none => 0) with
-      | .error e, _ => .error e
-      | _, .error e => .error e
-      | .ok cfgv, .ok stv =>
-        let me : PInfo := { mod := cx.cur, name := p.name, kind := p.kind, config := cfgv, status := stv }
-        let cxk : Cx := { cx with ppath := path, parent := some me, disabled := dis }
-        let d0 : CData := { mod := cx.cur, name := p.name, kind := p.kind, config := cfgv, status := stv, mand := false,
-                            presence := false, whens := p.whens, disabled := selfDis, dflts := [], min := 0, max := 0, typ := none, units := none }
-        match p.kind with
-        | .leaf =>
-          match mkLeafType env p with
-          | .error e => .error e
-          | .ok (t, units, tdf) =>
-            let mand := p.mand == some true
-            if !p.dflts.isEmpty && mand then .error .fail else
-            -- lys_compile_unres_leaf_dlft: the type's default is ignored for a mandatory leaf; values are checked unless disabled
-            let dfl := if !p.dflts.isEmpty then p.dflts else if mand then [] else tdf
-            if !dis && !cx.grp && !(dfl.all (dfltValid t)) then .error .fail else
-            .ok (st, [.mk { d0 with mand := mand, dflts := dfl, typ := some t, units := units } []])
-        | .leaflist =>
-          match mkLeafType env p with
-          | .error e => .error e
-          | .ok (t, units, tdf) =>
-            let mand := p.min > 0
-            if !p.dflts.isEmpty && mand then .error .fail else
-            if p.max != 0 && p.min > p.max then .error .fail else
-            let dfl := if !p.dflts.isEmpty then p.dflts else if mand then [] else tdf
-            if !dis && !cx.grp && !(dfl.all (dfltValid t)) then .error .fail else
-            if !dis && !cx.grp && cfgv && !p.dflts.isEmpty && !distinctStr p.dflts then .error .fail else
-            .ok (st, [.mk { d0 with mand := mand, dflts := dfl, typ := some t, units := units, min := p.min, max := p.max } []])
-        | .container =>
-          match compileNodes env fuel st cxk 0 kids with
-          | .error e => .error e
-          | .ok (st, cs) =>
-            match connectAll [] cx.cur cs with
+    | .ok (st, h) =>
+      if leafish h.p.kind then
+        match leafBody env cx h with
+        | .error e => .error e
+        | .ok c => .ok (st, [c])
+      else
+        -- the children: cases of a choice, or the data children connected in statement order
+        let body : Except Err (St × List CNode) :=
+          if h.p.kind == .choice then compileChoiceKids env fuel st h.cxk [] kids
+          else
+            match compileNodes env fuel st h.cxk 0 kids with
             | .error e => .error e
-            | .ok acc =>
-              match applyAugs env fuel st cxk acc with
+            | .ok (st, cs) =>
+              match connectAll [] cx.cur cs with
               | .error e => .error e
-              | .ok (st, acc) =>
-                -- lys_compile_mandatory_parents: a non-presence container is flagged by every mandatory child
-                .ok (st, [.mk { d0 with presence := p.presence, mand := !p.presence && acc.any (·.d.mand) } acc])
-        | .list =>
-          match compileNodes env fuel st cxk 0 kids with
-          | .error e => .error e
-          | .ok (st, cs) =>
-            match connectAll [] cx.cur cs with
-            | .error e => .error e
-            | .ok acc =>
-              match applyAugs env fuel st cxk acc with
-              | .error e => .error e
-              | .ok (st, acc) =>
-                if p.max != 0 && p.min > p.max then .error .fail else
-                .ok (st, [.mk { d0 with mand := p.min > 0, min := p.min, max := p.max } acc])
-        | .choice =>
-          match compileChoiceKids env fuel st cxk [] kids with
+              | .ok acc => .ok (st, acc)
+        match body with
+        | .error e => .error e
+        | .ok (st, acc) =>
+          -- then the augments of this node
+          match applyAugs env fuel st h.cxk acc with
           | .error e => .error e
           | .ok (st, acc) =>
-            match applyAugs env fuel st cxk acc with
+            match finishInner h acc with
             | .error e => .error e
-            | .ok (st, acc) => .ok (st, [.mk { d0 with mand := p.mand == some true } acc])
-        | .case =>
-          match compileNodes env fuel st cxk 0 kids with
-          | .error e => .error e
-          | .ok (st, cs) =>
-            match connectAll [] cx.cur cs with
-            | .error e => .error e
-            | .ok acc =>
-              match applyAugs env fuel st cxk acc with
-              | .error e => .error e
-              | .ok (st, acc) => .ok (st, [.mk d0 acc])
+            | .ok c => .ok (st, [c])
 
 /-- children of one parsed parent, in statement order -/
 def compileNodes (env : Env) : Nat → St → Cx → Nat → List PNode → Except Err (St × List CNode)
@@ -697,7 +708,7 @@ def applyAugs (env : Env) : Nat → St → Cx → List CNode → Except Err (St 
       match st.augs.find? (fun a => a.aug.1.path == cx.ppath) with
       | none => .ok (st, acc)
       | some ta =>
-        match compileAug env fuel st { cx with cur := ta.owner } ta.aug false acc with
+        match compileAug env fuel st { cx with cur := ta.owner, stack := if env.cfg.fixF390 then [] else cx.stack } ta.aug false acc with
         | .error e => .error e
         | .ok (st, acc) =>
           let st := { st with augs := rmTAug env.cfg st.augs ta.id }
@@ -765,14 +776,17 @@ def ownDevs (sch : Schema) (m : String) (devBy : List String) : Except Err (List
   if devs.any (fun x => x.devs.any (·.kind == .notSupported) && x.count > 1) then .error .fail else .ok devs
 
 mutual
-/-- the disabled nodes are removed when the dep set is finished (`lys_compile_unres_depset`) -/
-def pruneNode : Nat → CNode → CNode
+/-- the disabled nodes are removed when the dep set is finished (`lys_compile_unres_depset`); with fixes/F392.diff the
+mandatory flag of a container that lost its mandatory children is cleared (`lys_compile_mandatory_parents(parent, 0)`) -/
+def pruneNode (fix : Bool) : Nat → CNode → CNode
   | 0, c => c
-  | f + 1, .mk d cs => .mk d (pruneList f cs)
-def pruneList : Nat → List CNode → List CNode
+  | f + 1, .mk d cs =>
+    let k := pruneList fix f cs
+    .mk (if fix && d.kind == .container then { d with mand := d.mand && k.any (·.d.mand) } else d) k
+def pruneList (fix : Bool) : Nat → List CNode → List CNode
   | 0, l => l
   | _, [] => []
-  | f + 1, c :: rest => if c.d.disabled then pruneList f rest else pruneNode f c :: pruneList f rest
+  | f + 1, c :: rest => if c.d.disabled then pruneList fix f rest else pruneNode fix f c :: pruneList fix f rest
 end
 
 mutual
@@ -822,7 +836,7 @@ def compileModuleRaw (env : Env) (fuel : Nat) (m : Module) (augBy devBy : List S
 
 def compileModule (env : Env) (fuel : Nat) (m : Module) (augBy devBy : List String) : Except Err (List CNode) := do
   let top ← compileModuleRaw env fuel m augBy devBy
-  .ok (pruneList 1000 top)
+  .ok (pruneList env.cfg.fixF392 1000 top)
 
 /-! ### load order: who is in `augmented_by` / `deviated_by`, in which order (`lys_precompile_augments_deviations`) -/
 
